@@ -5,13 +5,16 @@ package e2e
 import (
 	"fmt"
 	"os"
+	"path/filepath"
 	"sort"
+	"strings"
 	"testing"
 
 	"pgregory.net/rapid"
 
 	"verif/ev"
 	"verif/pgen"
+	"verif/world"
 )
 
 type c01Case struct {
@@ -38,6 +41,9 @@ func genRun(t *rapid.T, p pgen.Prog, seg, head uint64) runSpec {
 		out = rapid.SampledFrom(storeMaps).Draw(t, "outputstore")
 	}
 	init := p.Mod(out).Initial
+	if f := world.FSB(); init < f {
+		init = f // a chain whose first streamable block is not 0 (VERIF_FSB): nothing exists below it
+	}
 	r := runSpec{Output: out, Prod: rapid.IntRange(0, 2).Draw(t, "prod") > 0}
 	maxStart := 4 * seg
 	if maxStart < init {
@@ -95,7 +101,7 @@ func genC01(t *rapid.T) c01Case {
 	inits := []uint64{0, 0, 0, 1, c.Seg - 1, c.Seg, c.Seg + 1, 2*c.Seg + 2}
 	c.Prog = pgen.Gen(t, pgen.Opts{MinMods: 2, MaxMods: 7, InitialBlocks: inits, ForceStoreOutput: rapid.IntRange(0, 9).Draw(t, "forcestore") < 7})
 	if rapid.IntRange(0, 4).Draw(t, "chainprog") == 0 {
-		c.Prog = pgen.GenChain(t, rapid.IntRange(2, 3).Draw(t, "chaindepth"), inits) // 2..3 store stages below the mapper
+		c.Prog = pgen.GenChain(t, rapid.IntRange(2, 3).Draw(t, "chaindepth"), inits, 2*c.Seg, 3*c.Seg, 3*c.Seg+1, 4*c.Seg+1) // 2..3 store stages below the mapper
 	}
 	if len(c.Prog.Maps()) == 0 {
 		c.Prog = pgen.Gen(t, pgen.Opts{MinMods: 2, MaxMods: 7, InitialBlocks: inits, ForceStoreOutput: true})
@@ -122,6 +128,9 @@ func genC01(t *rapid.T) c01Case {
 			}
 			if rapid.Bool().Draw(t, "histlower") && h.Start >= c.Seg && h.Start-c.Seg >= c.Prog.Mod(h.Output).Initial {
 				h.Start -= c.Seg
+			}
+			if f := world.FSB(); h.Start < f {
+				h.Start = f
 			}
 			h.Stop = last.Stop
 			if h.Stop != 0 && rapid.Bool().Draw(t, "histlonger") {
@@ -188,7 +197,7 @@ func checkC01(c c01Case) (*ev.Failure, []c01Stats) {
 			return f, stats
 		}
 		if f := compareStores(S.last, L.last, kinds); f != nil {
-			f.Msg = fmt.Sprintf("run %d (%+v, seg %d): %s", i, spec, c.Seg, f.Msg)
+			f.Msg = fmt.Sprintf("run %d (%+v, seg %d): %s\njobs (stage, segment, start and end sequence numbers): %+v\nfiles left: %s", i, spec, c.Seg, f.Msg, S.res.Jobs, listFiles(dir))
 			return f, stats
 		}
 	}
@@ -196,8 +205,28 @@ func checkC01(c c01Case) (*ev.Failure, []c01Stats) {
 }
 
 func TestC01(t *testing.T) {
-	r := ev.Get("C01", "Strategies")
-	r.Rule = "rapid: generated program (2..7+ modules: maps incl. sparse/skip-empty, stores of every kind read in get and deltas mode, block indexes with filtered modules, clock-only and params-only modules, initial blocks straddling segment boundaries) x 1..3 requests run in order on one cache directory (mode, output module, start, stop or unbounded, segment size 2..7, 1..4 workers, final block unknown/below/inside/above, steered job completion order); each run compared with the single sequential execution L (dev mode, empty cache, one huge segment): strictly increasing, every delivered block equal to L's (id, payload), omissions only below the hand-off in production mode with empty payload, final stores typed-equal; non-trivial = the run scheduled >=2 segment jobs or served >=1 block from cached outputs, and the output depends on a store"
+	runC01(t, "Strategies", "")
+}
+
+// TestC01FSB is TestC01 on a chain whose first streamable block is $VERIF_FSB (a process-wide setting of bstream,
+// hence a test of its own, run in its own process by the driver).
+func TestC01FSB(t *testing.T) {
+	if world.FSB() == 0 {
+		t.Skip("VERIF_FSB not set")
+	}
+	runC01(t, "StrategiesFSB", fmt.Sprintf("chain whose first streamable block is %d (module initial blocks and start blocks below it are moved up to it, segments and snapshots start there); ", world.FSB()))
+}
+
+func TestC01FSBReplay(t *testing.T) {
+	if world.FSB() == 0 {
+		t.Skip("VERIF_FSB not set")
+	}
+	ev.Replay(t, "C01", "StrategiesFSB", func(c c01Case) *ev.Failure { f, _ := checkC01(c); return f })
+}
+
+func runC01(t *testing.T, name, prefix string) {
+	r := ev.Get("C01", name)
+	r.Rule = prefix + "rapid: generated program (2..7+ modules: maps incl. sparse/skip-empty, stores of every kind read in get and deltas mode, block indexes with filtered modules, clock-only and params-only modules, initial blocks straddling segment boundaries) x 1..3 requests run in order on one cache directory (mode, output module, start, stop or unbounded, segment size 2..7, 1..4 workers, final block unknown/below/inside/above, steered job completion order); each run compared with the single sequential execution L (dev mode, empty cache, one huge segment): strictly increasing, every delivered block equal to L's (id, payload), omissions only below the hand-off in production mode with empty payload, final stores typed-equal; non-trivial = the run scheduled >=2 segment jobs or served >=1 block from cached outputs, and the output depends on a store"
 	rapid.Check(t, func(rt *rapid.T) {
 		c := genC01(rt)
 		r.Begin(c)
@@ -257,4 +286,17 @@ func dedupStrings(in []string) []string {
 		}
 	}
 	return out
+}
+
+// listFiles names the files of a cache directory (diagnostics of a failure).
+func listFiles(dir string) string {
+	var out []string
+	filepath.Walk(dir, func(p string, info os.FileInfo, err error) error {
+		if err == nil && !info.IsDir() {
+			out = append(out, strings.TrimPrefix(p, dir))
+		}
+		return nil
+	})
+	sort.Strings(out)
+	return strings.Join(out, " ")
 }
